@@ -12,29 +12,10 @@ Record refines (h : change -> list change) : Prop := {
     exists tcs', y = ModifyTable t tcs' /\
       forall f, In f (flat_map tc_added tcs') -> In f (flat_map tc_added tcs);
   rf_rm : forall t tcs s, existsb (tc_removes s) tcs = true ->
-    exists tcs', In (ModifyTable t tcs') (h (ModifyTable t tcs)) /\ existsb (tc_removes s) tcs' = true
+    exists tcs', In (ModifyTable t tcs') (h (ModifyTable t tcs)) /\ existsb (tc_removes s) tcs' = true;
+  (* ... and drops each key as often as the original *)
+  rf_keys : forall t tcs, Permutation (flat_map rm_keys (h (ModifyTable t tcs))) (rm_keys (ModifyTable t tcs))
 }.
-
-Lemma flat_map_split {A B} (h : A -> list B) : forall l pre' y post',
-  flat_map h l = pre' ++ y :: post' ->
-  exists pre x post p1 p2, l = pre ++ x :: post /\ h x = p1 ++ y :: p2 /\
-    pre' = flat_map h pre ++ p1 /\ post' = p2 ++ flat_map h post.
-Proof.
-  induction l as [|x l IH]; intros pre' y post' E; simpl in E.
-  - destruct pre'; discriminate.
-  - symmetry in E. apply app_eq_app in E. destruct E as [l0 [[E1 E2]|[E1 E2]]].
-    + (* pre' = h x ++ l0 , rest = l0 ++ y :: post' *)
-      destruct (IH l0 y post' E2) as [pre [x0 [post [p1 [p2 [H1 [H2 [H3 H4]]]]]]]].
-      exists (x :: pre), x0, post, p1, p2. split; [rewrite H1; reflexivity|]. split; [exact H2|].
-      split; [|exact H4]. simpl. rewrite <- app_assoc, <- H3. exact E1.
-    + (* h x = pre' ++ l0 , y :: post' = l0 ++ rest *)
-      destruct l0 as [|z l0]; simpl in E2.
-      * rewrite app_nil_r in E1. subst pre'.
-        destruct (IH [] y post' (eq_sym E2)) as [pre [x0 [post [p1 [p2 [H1 [H2 [H3 H4]]]]]]]].
-        exists (x :: pre), x0, post, p1, p2. split; [rewrite H1; reflexivity|]. split; [exact H2|].
-        split; [|exact H4]. simpl. rewrite <- app_assoc, <- H3, app_nil_r. reflexivity.
-      * inversion E2; subst. exists [], x, l, pre', l0. repeat split; assumption.
-Qed.
 
 Section Transfer.
   Variable h : change -> list change.
@@ -67,6 +48,20 @@ Section Transfer.
 
   Lemma fm_drops l : flat_map drops (flat_map h l) = flat_map drops l.
   Proof. induction l as [|x l IH]; simpl; [reflexivity|]. rewrite flat_map_app, h_drops, IH. reflexivity. Qed.
+
+  Lemma h_keys x : Permutation (flat_map rm_keys (h x)) (rm_keys x).
+  Proof.
+    destruct x as [t fks|t fks|t tcs].
+    - rewrite (rf_add h Hh). apply Permutation_refl.
+    - rewrite (rf_drop h Hh). apply Permutation_refl.
+    - apply (rf_keys h Hh).
+  Qed.
+
+  Lemma fm_keys l : Permutation (flat_map rm_keys (flat_map h l)) (flat_map rm_keys l).
+  Proof.
+    induction l as [|x l IH]; simpl; [constructor|]. rewrite flat_map_app.
+    apply Permutation_app; [apply h_keys|exact IH].
+  Qed.
 
   Lemma h_added x y f : In y (h x) -> In f (added_fks y) -> In f (added_fks x).
   Proof.
@@ -136,6 +131,8 @@ Section Transfer.
         destruct (h_removes y0 _ _ Hrm) as [y1 [Hy1 Hr1]].
         exists y1. split; [|exact Hr1]. rewrite Ep. apply in_or_app. left. apply in_flat_map. exists y0. split; assumption.
       + destruct (rf_mod h Hh t0 tcs _ Hy) as [tcs' [Hd _]]. discriminate.
+    - apply (Permutation_NoDup (Permutation_sym (fm_keys l))). apply (so_rm_nodup l c H).
+    - intros k Hk. apply (Permutation_in _ (fm_keys l)) in Hk. apply (so_rm_live l c H k Hk).
   Qed.
 End Transfer.
 
@@ -171,6 +168,22 @@ Proof.
       exists g0. split.
       * simpl. apply in_or_app. left. fold g0. destruct g0; [destruct Hin|left; reflexivity].
       * apply existsb_exists. exists (DropFK from). split; [exact Hin|exact Hr].
+  - intros t tcs. simpl.
+    set (g0 := flat_map (fun c => match c with ModifyFK from _ => [DropFK from] | _ => [] end) tcs).
+    set (g1 := map (fun c => match c with ModifyFK _ to => AddFK to | c => c end) tcs).
+    assert (E0 : flat_map rm_keys (match g0 with [] => [] | _ :: _ => [ModifyTable t g0] end) =
+                 map (pair (t_name t)) (flat_map tc_rm g0)).
+    { destruct g0; [reflexivity|]. simpl. rewrite app_nil_r. reflexivity. }
+    assert (E1 : flat_map rm_keys (match g1 with [] => [] | _ :: _ => [ModifyTable t g1] end) =
+                 map (pair (t_name t)) (flat_map tc_rm g1)).
+    { destruct g1; [reflexivity|]. simpl. rewrite app_nil_r. reflexivity. }
+    rewrite flat_map_app, E0, E1, <- map_app. apply Permutation_map.
+    unfold g0, g1. clear. induction tcs as [|tc tcs IH]; simpl; [constructor|].
+    destruct tc as [f|f|from to|k]; simpl.
+    + exact IH.
+    + apply Permutation_sym. apply Permutation_cons_app. apply Permutation_sym. exact IH.
+    + constructor. exact IH.
+    + exact IH.
 Qed.
 
 Lemma pg_refines : refines pg_sources.
@@ -201,41 +214,40 @@ Proof.
     + apply existsb_exists. exists (DropFK g). split.
       * apply in_or_app. left. apply filter_In. split; [exact Hg|reflexivity].
       * simpl. apply Nat.eqb_eq. exact Hs.
+  - intros t tcs. simpl.
+    set (alter := flat_map (fun c => match c with ModifyFK from to => [DropFK from; AddFK to] | c => [c] end) tcs).
+    assert (Ea : Permutation (flat_map tc_rm alter) (flat_map tc_rm tcs)).
+    { unfold alter. clear. induction tcs as [|tc tcs IH]; simpl; [constructor|].
+      destruct tc as [f|f|from to|k]; simpl; try exact IH; constructor; exact IH. }
+    destruct alter as [|a al] eqn:E.
+    + simpl in *. apply Permutation_nil in Ea. rewrite Ea. constructor.
+    + rewrite <- E in *. simpl. rewrite app_nil_r. apply Permutation_map.
+      eapply perm_trans; [|exact Ea]. apply Permutation_flat_map.
+      eapply perm_trans; [apply Permutation_app_comm|]. apply (filter_perm is_dropfk alter).
 Qed.
 
 (** * Safety of what the dialect planners emit *)
-Theorem dialect_safe_ordered cs c S h :
-  refines h -> WF cs -> consistent c cs ->
-  (sortMap cs = SMCycle -> repoint_ordered cs) ->
-  detach_spec cs S ->
-  exists c', replay (flat_map h (partition_changes S)) c = Some c'.
+Theorem dialect_safe cs c S h :
+  refines h -> WF cs -> consistent c cs -> detach_spec cs S ->
+  exists out c', SortChanges S = Some out /\ replay (flat_map h out) c = Some c'.
 Proof.
-  intros Hh HWF Hcons Hex HS. apply split_replay_ok. apply (refine_split_ok h Hh).
-  apply (safe_ordered cs c S HWF Hcons Hex HS).
+  intros Hh HWF Hcons HS. destruct (safe_split cs c S HWF Hcons HS) as [out [H1 [_ H2]]].
+  destruct (split_replay_ok _ _ (refine_split_ok h Hh out c H2)) as [c' Hc].
+  exists out, c'. split; assumption.
 Qed.
 
 Theorem plan_dialect_safe cs c :
   WF cs -> consistent c cs ->
-  (sortMap cs = SMCycle -> repoint_ordered cs) ->
   exists l, plan cs = POk l /\
     (exists c1, replay l c = Some c1) /\
     (exists c2, replay (flat_map mysql_sources l) c = Some c2) /\
     (exists c3, replay (flat_map pg_sources l) c = Some c3).
 Proof.
-  intros HWF Hcons Hex. destruct (DetachCycles_total cs) as [S HS].
+  intros HWF Hcons. destruct (DetachCycles_total cs) as [S HS].
   pose proof (DetachCycles_spec cs S HS) as Hspec.
-  destruct (safe_ordered cs c S HWF Hcons Hex Hspec) as [H1 H2].
-  exists (partition_changes S). split; [unfold plan; rewrite HS, H1; reflexivity|].
+  destruct (safe_split cs c S HWF Hcons Hspec) as [out [H1 [_ H2]]].
+  exists out. split; [unfold plan; rewrite HS, H1; reflexivity|].
   split; [apply (split_replay_ok _ _ H2)|]. split.
-  - apply (dialect_safe_ordered cs c S mysql_sources mysql_refines HWF Hcons Hex Hspec).
-  - apply (dialect_safe_ordered cs c S pg_sources pg_refines HWF Hcons Hex Hspec).
+  - apply (split_replay_ok _ _ (refine_split_ok mysql_sources mysql_refines out c H2)).
+  - apply (split_replay_ok _ _ (refine_split_ok pg_sources pg_refines out c H2)).
 Qed.
-
-Corollary plan_dialect_safe_except cs c :
-  WF cs -> consistent c cs ->
-  (sortMap cs = SMCycle -> no_repoint_to_added cs) ->
-  exists l, plan cs = POk l /\
-    (exists c1, replay l c = Some c1) /\
-    (exists c2, replay (flat_map mysql_sources l) c = Some c2) /\
-    (exists c3, replay (flat_map pg_sources l) c = Some c3).
-Proof. intros HWF Hcons Hex. apply (plan_dialect_safe cs c HWF Hcons (except_ordered cs Hex)). Qed.
